@@ -1,7 +1,9 @@
 import groups_vm
+import groups_gen
 
 
 def all_groups():
     gs = []
     gs += groups_vm.groups()
+    gs += groups_gen.groups()
     return gs
